@@ -2538,4 +2538,83 @@ theorem idempotent_partial (kind : Kind) (op : Op) (w : World) (br : BR) (o3 o4 
   · left; left; exact hok
 
 
+theorem init_installs_hold (kind : Kind) (w : World) (br : BR) (f : Fault) (out : CallOut)
+    (h : cpInitialize kind w br f = .val out) : initInstallsHold w br out = true := by
+  unfold initInstallsHold
+  rcases initialize_wl kind w br f out h with ⟨hw, hok⟩ | ⟨wl, s, hw, hctl, _, _, hw'⟩
+  · rw [hw]
+    cases hwl : w.wl with
+    | none => rfl
+    | some wl =>
+      simp only []
+      split
+      · rename_i hc
+        obtain ⟨wl', hw2, hc2⟩ := hok hc.2
+        rw [hwl] at hw2; cases hw2
+        exact absurd hc2 hc.1
+      · rfl
+  · rw [hw, hw']
+    simp only []
+    split
+    · cases kind <;> simp [initPatch, ruUnavailable, curSurge, ruSurge, RV.BatchCtx.normSurge, controlled]
+    · rfl
+
+theorem findHPA_disabledW (w : World) (v : Ver) (k : Nat) (h : findHPA (disabledW w) noFault = .val (some (v, k))) :
+    k ≠ 0 := by
+  by_cases hs : ∃ v', findHPA w noFault = .val (some (v', 0))
+  · obtain ⟨v', hf⟩ := hs
+    rw [disabledW_of_zero w v' hf, findHPA_setHPA w v' 0 1 hf] at h
+    simp only [Out.val.injEq, Option.some.injEq, Prod.mk.injEq] at h
+    omega
+  · have hs' : ∀ v', findHPA w noFault ≠ .val (some (v', 0)) := fun v' hv => hs ⟨v', hv⟩
+    rw [disabledW_of_not w hs'] at h
+    intro hk
+    subst hk
+    exact hs' v h
+
+theorem hpaDisabled_congr (w w' : World) (h2 : w'.hpaV2 = w.hpaV2) (h1 : w'.hpaV1 = w.hpaV1) :
+    hpaDisabled w' = hpaDisabled w := by
+  unfold hpaDisabled
+  rw [findHPA_congr w w' noFault h2 h1]
+
+theorem init_disables_hpa_partial (kind : Kind) (w : World) (br : BR) (f : Fault) (out : CallOut)
+    (h : cpInitialize kind w br f = .val out) (hG : gListFault f = false) : initDisablesHPA w br out = true := by
+  unfold initDisablesHPA
+  cases hw : w.wl with
+  | none => rfl
+  | some wl =>
+    simp only []
+    split
+    · rename_i hc
+      have hc' : controlled br wl = false := by simpa using hc.1
+      rcases init_first kind w br f out wl h hw hc' hG with ⟨_, hne⟩ | ⟨s, _, _, hw1⟩
+      · exact absurd hc.2 hne
+      · rw [hw1]
+        have : hpaDisabled { initBase kind w with wl := some (initPatch kind br (initSetting kind s wl) wl) } =
+            hpaDisabled (disabledW w) := by
+          apply hpaDisabled_congr
+          · exact (rsW_frame kind (disabledW w)).2.1
+          · exact (rsW_frame kind (disabledW w)).2.2
+        rw [this]
+        unfold hpaDisabled
+        split
+        · rename_i v k hf
+          simp only [decide_eq_true_eq]
+          exact findHPA_disabledW w v k hf
+        · rfl
+    · rfl
+
+
+theorem upgrade_keeps_hold (kind : Kind) (w : World) (br : BR) (f : Fault) (out : CallOut)
+    (h : cpUpgradeBatch kind w br f = .val out) : upgradeKeepsHold kind out = true := by
+  unfold upgradeKeepsHold
+  rcases upgrade_world kind w br f out h with ⟨_, h0⟩ | ⟨wl, R, e, _, _, _, _, hv, _, _, h1, hw'⟩
+  · simp only [h0, if_true]
+  · simp only [h1, Nat.succ_ne_zero, if_false, hw']
+    cases kind
+    · exact held_upgradePatch_dep e wl hv
+    · simp only [validate, Bool.and_eq_true, decide_eq_true_eq] at hv
+      simp only [upgradePatch, Bool.and_eq_true]
+      exact ⟨decide_eq_true hv.2, decide_eq_true hv.1.2⟩
+
 end RV.Lemmas.CtlBlueGreen
